@@ -64,7 +64,7 @@ def _cov(d):
     """PSD = L L^T; frame None (= state frame) / QSW / TNW; `as` = how the 36 numbers are handed over:
     float64 array (the caller changes it afterwards), nested lists, nested tuples, python ints / an int64 array
     (integer-valued matrix, e.g. numpy.diag([100, 100, 100, 1, 1, 1]))"""
-    how = d.pick("ndarray", "ndarray", "list", "tuple", "ints", "int64")
+    how = d.pick("ndarray", "ndarray", "ndarray", "list", "list", "tuple", "ints", "int64")
     L = []
     for i in range(6):
         if how in ("ints", "int64"):
